@@ -59,10 +59,10 @@ def shared_map(sp, rp, tol=1e-5):
     return m
 
 
-def planted(cellname, pairname, copies, seed, decoys=3, straddle=True):
+def planted(cellname, pairname, copies, seed, decoys=3, straddle=True, noise=0.0):
     rnd = random.Random(seed)
     se, sx, _, _ = PAIRS[pairname]
-    case = geo.build(cellname, None, copies, rnd, decoys=decoys, straddle=straddle, pattern_override=(se, sx))
+    case = geo.build(cellname, None, copies, rnd, decoys=decoys, straddle=straddle, pattern_override=(se, sx), noise=noise)
     if len(se) == 1:
         # every atom of that element is an occurrence of a one-atom pattern
         case['planted'] = [(i,) for i, e in enumerate(case['structure'].elements) if e == se]
